@@ -1,0 +1,15 @@
+//go:build !windows && !nacl && !plan9
+// +build !windows,!nacl,!plan9
+
+package stdlib
+
+import "log/syslog"
+
+// syslogNewLogger returns the logger of syslog.NewLogger, wrapped.
+func syslogNewLogger(p syslog.Priority, logFlag int) (*logLogger, error) {
+	l, err := syslog.NewLogger(p, logFlag)
+	if err != nil {
+		return nil, err
+	}
+	return &logLogger{l}, nil
+}
